@@ -68,6 +68,33 @@ pub open spec fn sum_lens(s: Seq<usize>, n: int) -> int decreases n { if n <= 0 
             r is Ok ==> (exists|g: u64| is_translation(old(self).mappings@, descriptor, g)) && (exists|g: u64| is_translation(old(self).mappings@, available, g))
                 && (exists|g: u64| is_translation(old(self).mappings@, used, g)), // [C14,C13] accepted only if every address lies in a current region""")
     u.raw("}")
+    # ---- C13: ADD_MEM_REG / REM_MEM_REG (SET_MEM_TABLE's zip loop is outside the Verus dialect: not decided here)
+    MEMRW = [("R6", r'Arc::new\(\s*GuestRegionMmap::new\(\s*region\.mmap_region\(file\)\?,\s*GuestAddress\(region\.guest_phys_addr\),\s*\)\s*\.ok_or\(VhostUserError::ReqHandlerError\(\s*io::ErrorKind::InvalidInput\.into\(\),?\s*\)\)\?,?\s*\)',
+              'guest_region_new(region.mmap_region(file)?, GuestAddress(region.guest_phys_addr))?'),
+             ("R6", r'\.map_err\(\|e\| VhostUserError::ReqHandlerError\(io::Error::other\(e\)\)\)', ''),
+             ("R8", r'self\.atomic_mem\.lock\(\)\.unwrap\(\)\.replace\(mem\)', 'self.atomic_mem.replace_with(mem)'),
+             ("R8", r'self\.atomic_mem\.clone\(\)', 'self.atomic_mem.clone_handle()'),
+             ("R6", r'self\.mappings\s*\.retain\(\|mapping\| mapping\.gpa_base != region\.guest_phys_addr\)', 'retain_not_gpa(&mut self.mappings, region.guest_phys_addr)')]
+    MEMSIG = [("R3", r'&VhostUserSingleMemoryRegion', '&RegionMsg'), ("R10", r'file:\s*File', 'file: FileStub')]
+    u.raw("impl MemHandler {")
+    u.extracted_fn(hnd, "add_mem_region", within=span2, sig_rw=MEMSIG, body_rw=MEMRW, contract="""
+        requires mappings_ok(old(self).mappings@), region.memory_size > 0, region.user_addr + region.memory_size <= u64::MAX, region.guest_phys_addr + region.memory_size <= u64::MAX
+        ensures
+            r is Ok ==> final(self).atomic_mem.view@ == old(self).atomic_mem.view@.push(RegionDesc { gpa: region.guest_phys_addr, size: region.memory_size, file: file.id@, off: region.mmap_offset })
+                && final(self).mappings@ == old(self).mappings@.push(AddrMapping { vmm_addr: region.user_addr, size: region.memory_size, gpa_base: region.guest_phys_addr })
+                && final(self).backend.updates@ == old(self).backend.updates@.push(final(self).atomic_mem.view@), // [C13] exactly the accepted region, backed by the passed file at mmap_offset; backend notified once
+            r is Ok ==> mappings_ok(final(self).mappings@), // [C05,C13] the table invariant the translation relies on
+            r is Err ==> final(self).mappings@ == old(self).mappings@, // [C13] a failed update leaves the translation table intact
+            r is Err ==> final(self).atomic_mem.view@ == old(self).atomic_mem.view@, // [C13:mem-intact] ... and the guest memory""")
+    u.extracted_fn(hnd, "remove_mem_region", within=span2, sig_rw=MEMSIG, body_rw=MEMRW, contract="""
+        ensures
+            r is Ok ==> (exists|i: int| 0 <= i < old(self).atomic_mem.view@.len() && old(self).atomic_mem.view@[i].gpa == region.guest_phys_addr
+                         && old(self).atomic_mem.view@[i].size == region.memory_size && final(self).atomic_mem.view@ == old(self).atomic_mem.view@.remove(i)), // [C13]
+            r is Ok ==> final(self).mappings@ == old(self).mappings@.filter(|m: AddrMapping| m.gpa_base != region.guest_phys_addr)
+                && final(self).backend.updates@ == old(self).backend.updates@.push(final(self).atomic_mem.view@), // [C13]
+            r is Err ==> final(self).mappings@ == old(self).mappings@, // [C13]
+            r is Err ==> final(self).atomic_mem.view@ == old(self).atomic_mem.view@, // [C13:mem-intact]""")
+    u.raw("}")
     # ---- C15: page arithmetic, new, mark_dirty
     u.extracted_fn(bmp, "page_number", contract="        ensures r == addr / 4096 // [C15]")
     u.extracted_fn(bmp, "page_word", contract="        ensures r == page / 8 // [C15] bit number gpa/4096, eight pages per log byte")
